@@ -3,6 +3,8 @@ package main
 import (
 	"fmt"
 	"net/url"
+
+	"github.com/ogen-go/ogen/location"
 	"strconv"
 	"strings"
 
@@ -317,6 +319,7 @@ func c16(r *lp.Run) {
 					add(m)
 				}
 			}
+			c16Key(r, g, root, doc, tsb.String(), f)
 			add("other.json#" + f[1:])
 			add("http://h/x.yml#" + f[1:])
 		}
@@ -384,5 +387,65 @@ func c16One(r *lp.Run, g *ptrGen, root *pnode, doc *yaml.Node, toks, p string, d
 		fail("Resolve returns a node for a pointer that designates none", out, "err")
 	case ok && g.byY[got] != want:
 		fail("Resolve returns a different node", out, "ok "+describeP(want))
+	}
+}
+
+// reference keys: the pointer part of a reference that is resolved in the context of another document
+// (jsonpointer.ResolveCtx.Key: an external `ext.json#…` reference at the top level, and a local `#…` reference met
+// while another reference is being resolved) must designate the node the fragment designates
+func c16Key(r *lp.Run, g *ptrGen, root *pnode, doc *yaml.Node, toks, frag string) {
+	if frag == "" || frag[0] != '#' {
+		return
+	}
+	want, ok, modelled := rfcAny(frag, root)
+	if !modelled {
+		return
+	}
+	for _, mode := range []string{"external", "nested-local"} {
+		var got *yaml.Node
+		var keyPtr string
+		out := lp.Guard(func() string {
+			ctx := jsonpointer.NewResolveCtx(&url.URL{Scheme: "file", Path: "/spec/root.json"}, 100)
+			ref := "ext.json" + frag
+			if mode == "nested-local" {
+				if err := ctx.AddKey(jsonpointer.RefKey{Loc: "file:///spec/ext.json", Ptr: "#"}, location.File{}); err != nil {
+					return "err addkey"
+				}
+				ref = frag
+			}
+			key, err := ctx.Key(ref)
+			if err != nil {
+				return "err key"
+			}
+			keyPtr = key.Ptr
+			n, err := jsonpointer.Resolve(key.Ptr, doc)
+			if err != nil {
+				return "err"
+			}
+			got = n
+			if pn := g.byY[n]; pn != nil {
+				return "ok " + describeP(pn)
+			}
+			return "ok <foreign node>"
+		})
+		branch := "err"
+		if strings.HasPrefix(out, "ok") {
+			branch = "ok"
+		}
+		r.Count("refkey "+mode+toks+frag, "refkey:"+mode+":"+branch, strings.Contains(frag, "%"))
+		r.PropCheck()
+		fail := func(what, obs, exp string) {
+			r.Fail(lp.PropFail{Property: "C16", What: what, Input: map[string]string{"tree": toks, "reference": mode + " " + frag, "key_pointer": keyPtr}, Observed: obs, Expected: exp})
+		}
+		switch {
+		case strings.Contains(out, "panic"):
+			fail("building or resolving a reference key panics", out, "node or error")
+		case ok && strings.HasPrefix(out, "err"):
+			fail("the fragment of a reference designates a node but resolution through the reference key reports an error", out, "ok "+describeP(want))
+		case !ok && branch == "ok":
+			fail("resolution through the reference key returns a node for a fragment that designates none", out, "err")
+		case ok && g.byY[got] != want:
+			fail("resolution through the reference key returns a different node than the fragment designates", out, "ok "+describeP(want))
+		}
 	}
 }
